@@ -375,6 +375,12 @@ def _node(it):
                 if j[1][1] - j[1][0] > 70000:
                     raise Incomplete("range too large")
                 chars.update(chr(c) for c in range(j[1][0], j[1][1] + 1))
+            elif j[0] == "CATEGORY" and "_NOT_" in str(j[1]) and len(v) == 1:
+                base = {"CATEGORY_NOT_DIGIT": set("0123456789"), "CATEGORY_NOT_WORD": set(WORD),
+                        "CATEGORY_NOT_SPACE": set(" \t\n\r\x0b\x0c")}.get(str(j[1]))
+                if base is None:
+                    raise Incomplete(f"category {j[1]}")
+                return Cls(frozenset(base), True)
             elif j[0] == "CATEGORY":
                 name = str(j[1])
                 base = {"CATEGORY_DIGIT": set("0123456789"), "CATEGORY_WORD": set(WORD), "CATEGORY_SPACE": set(" \t\n\r\x0b\x0c")}.get(name)
